@@ -62,6 +62,7 @@ lemma decValMono(t string, k int, n int)
 
 // isUint16: decimal digits only (leading zeros allowed), value at most 65535
 func isUint16
+  loops 1
   ensures grammar: ok <==> ((forall i in 0..len(s): isDigit(s[i])) && decVal(s, len(s)) <= 65535)
   apply decValZero(s)
   apply_exit decValStep(s, $pos) when $pos >= 1
@@ -77,6 +78,7 @@ func fromHexByte
   ensures value: n == hexval(c)
 
 func isIPv4Label
+  loops 1
   ensures grammar: ok <==> octetLabel(label)
   loop 0
     invariant 1 < len(label) && len(label) <= 3 && label[0] != '0'
@@ -262,19 +264,23 @@ lemma prefer6StrictWeakOrder(a netip.Addr, b netip.Addr, c netip.Addr)
 // ip.go, addr.go: loop variants (termination) and index invariants
 
 func IsValidIPString
+  loops 1
   loop 0
     invariant safe_index: 0 <= i && strLen == len(s)
     decreases strLen - i
 
 func isValidIPv4String
+  loops 1
   loop 0
     decreases 4 - num
 
 func isValidIPv6String
+  loops 1
   loop 0
     decreases 8 - fieldsNum
 
 func Subdomains
+  loops 1
   loop 0
     decreases len(domain)
 
@@ -414,6 +420,7 @@ func ValidateDomainNameLabel
   ensures grammar: err == nil <==> domLabelOK(label)
 
 func IsValidHostnameLabel
+  loops 1
   ensures grammar: ok <==> hostLabelOK(label)
   loop 0
     invariant l == len(label) && 2 <= l && l <= 63 && outerOK(label[0])
@@ -421,6 +428,7 @@ func IsValidHostnameLabel
     invariant forall k in 0..$pos: innerOK(label[1 + k])
 
 func ValidateHostnameLabel
+  loops 1
   ensures safe_type: err != nil ==> typeis(err, "*LabelError") && as(err, "*LabelError") != nil &&
     ((typeis(as(err, "*LabelError").Err, "*LengthError") && as(as(err, "*LabelError").Err, "*LengthError") != nil) ||
      (typeis(as(err, "*LabelError").Err, "*RuneError") && as(as(err, "*LabelError").Err, "*RuneError") != nil))
@@ -432,6 +440,7 @@ func ValidateHostnameLabel
     invariant forall k in 0..$pos: innerOK(label[1 + k])
 
 func hasValidTLDChars
+  loops 1
   ensures value: ok <==> hasNonDigit(tld)
   loop 0
     invariant $pos == $i && 0 <= $pos && $pos <= len(tld)
@@ -446,6 +455,7 @@ func ValidateServiceNameLabel
   ensures grammar: err == nil <==> srvLabelOK(label)
 
 func ValidateDomainName
+  loops 1
   ensures safe_type: err != nil ==> typeis(err, "*AddrError") && as(err, "*AddrError") != nil
   ensures fresh_error: err != nil ==> fresh(as(err, "*AddrError"))
   ensures error_carries_input: err != nil ==> as(err, "*AddrError").Addr == old(name) && as(err, "*AddrError").Kind == AddrKindDomainName
@@ -465,6 +475,7 @@ func ValidateDomainName
     decreases found ? len(tail) + 1 : 0
 
 func ValidateHostname
+  loops 1
   ensures safe_type: err != nil ==> typeis(err, "*AddrError") && as(err, "*AddrError") != nil
   ensures error_carries_input: err != nil ==> as(err, "*AddrError").Addr == old(name) && as(err, "*AddrError").Kind == AddrKindName
   ensures grammar: err == nil <==> hostnameOK(old(name))
@@ -483,6 +494,7 @@ func ValidateHostname
     decreases found ? len(tail) + 1 : 0
 
 func ValidateSRVDomainName
+  loops 1
   ensures safe_type: err != nil ==> typeis(err, "*AddrError") && as(err, "*AddrError") != nil
   ensures error_carries_input: err != nil ==> as(err, "*AddrError").Addr == old(name) && as(err, "*AddrError").Kind == AddrKindSRVName
   ensures grammar: err == nil <==> srvNameOK(old(name))
@@ -501,6 +513,7 @@ func ValidateSRVDomainName
     decreases found ? len(tail) + 1 : 0
 
 func IsValidHostname
+  loops 1
   ensures grammar: ok <==> hostnameOK(old(name))
   apply_exit hostFromEnd(toASCII(name), off(label) - off(toASCII(name))) when !found
   loop 0
@@ -526,6 +539,7 @@ spec fn lowerOf(s string, r string) bool = len(r) == len(s) && (forall i in 0..l
 spec fn asciiLower(s string) string
 
 func asciiToLower
+  loops 2
   result_is asciiLower
   ensures lowered: lowerOf(s, lower)
   loop 0
@@ -553,6 +567,7 @@ lemma dotsInNonNeg(t string, n nat)
 
 // full v6 reverse address text: 32 groups "h." (the suffix is the caller's business)
 func ipv6FromReversed
+  loops 1
   requires len(arpa) == arpaV6MaxLen
   ensures accepts: err == nil <==> (forall j in 0..32: isHex(arpa[2 * j]) && arpa[2 * j + 1] == '.')
   ensures address: err == nil ==> addrValid(addr) && !addrIs4(addr) && !addrZoned(addr) &&
@@ -584,6 +599,7 @@ spec fn v4NetOK(t string) bool =
   forall j in 0..4: j < v4Count(t) ==> v4LabelOK(t, j)
 
 func ipv4NetFromReversed
+  loops 1
   requires safe_labels: dotsIn(arpa, len(arpa)) <= 3
   // every label that is accepted (and counted in l) is a canonical decimal
   // octet, and the byte stored for it is its value
@@ -608,6 +624,7 @@ spec fn v6NetByte(t string, i int, k int) int =
   (2 * i < k ? v6Nibble(t, 2 * i) * 16 : 0) + (2 * i + 1 < k ? v6Nibble(t, 2 * i + 1) : 0)
 
 func ipv6NetFromReversed
+  loops 1
   requires 8 <= len(arpa) && len(arpa) < arpaV6MaxLen
   ensures accepts: err == nil <==> v6NetOK(arpa)
   ensures bits: err == nil ==> prefBits(pref) == 4 * ((len(arpa) - 8) / 2) && addrValid(prefAddr(pref)) && !addrIs4(prefAddr(pref)) && !addrZoned(prefAddr(pref))
@@ -632,6 +649,7 @@ func subnetFromReversedV6
   ensures address: err == nil ==> (forall i in 0..16: addrByte(prefAddr(subnet), i) == v6NetByte(arpa, i, (len(arpa) - 8) / 2))
 
 func indexFirstV4Label
+  loops 1
   requires hasSuffix(domain, "in-addr.arpa")
   ensures safe_range: 0 <= idx && idx <= len(domain) - 12
   loop 0
@@ -644,6 +662,7 @@ spec fn hexRun(t string, idx int) bool =
   (forall p in idx..len(t) - 8: (p - idx) % 2 == 0 ==> isHex(t[p]) && t[p + 1] == '.')
 
 func indexFirstV6Label
+  loops 1
   requires hasSuffix(domain, "ip6.arpa")
   requires aligned: len(domain) == 8 || domain[len(domain) - 9] == '.'
   ensures safe_range: 0 <= idx && idx <= len(domain) - 8
@@ -656,6 +675,7 @@ func indexFirstV6Label
     decreases idx
 
 func IPToReversedAddr
+  loops 1
   loop 0
     invariant safe_index: -1 <= i && i < len(ip)
     decreases i + 1
